@@ -73,12 +73,12 @@ def run_tlc(tag, fams, *, bare=False, bug='', emitmin=0, simulate=None, depth=No
 def plan(rep):
     quick = rep.tier == 'quick'
     if quick:
-        exh = [['FamLen'], ['FamChainQ'], ['FamLen2Q', 'FamCor1', 'FamCall3Q'], ['FamGradQ', 'FamCallQ', 'FamGradB'], ['FamSubstQ', 'FamMutQ']]
+        exh = [['FamLen'], ['FamChainQ'], ['FamLen2Q', 'FamCor1'], ['FamGradQ', 'FamCallQ', 'FamGradB', 'FamCall3Q'], ['FamSubstQ', 'FamMutQ']]
         sim = ['FamSim1', 'FamSim1O', 'FamSimLen', 'FamSim1M']
     else:
         exh = [['FamLen', 'FamCor1', 'FamMut1'], ['FamLen2', 'FamGradB'], ['FamGrad', 'FamSubst2'], ['FamCall2'], ['FamChain'], ['FamLen4'], ['FamGrad3'], ['FamSubst'], ['FamCall']]
         sim = ['FamSim1', 'FamSim1O', 'FamSimLen', 'FamSim1M']
-    nsim = 250 if quick else 2500
+    nsim = 150 if quick else 2500
     mutants = ['update-nontransitive', 'call-raw-union'] if quick else sorted(SPEC_MUTANTS)
     return exh, sim, nsim, mutants
 
@@ -181,6 +181,7 @@ class World1:
                 self.vars[nm] = numpy.reshape(numpy.stack(comps), sh) if sh else comps[0]
         self.args = tables['args']
         self.gdim = tables['gdim']
+        self.setup_failures = {}
         self.selfcheck(point)
 
     def selfcheck(self, point):
@@ -213,8 +214,15 @@ class World1:
             if a['known']:
                 sh = tuple(a['decl'])
                 idx = 'ijkl'[:len(sh)]
-                setattr(ns, 'decl' + nm, '?{0}_{1} {2}'.format(nm, idx, ' '.join('{}_{}'.format({2: 'r', 3: 's'}[n], i) for n, i in zip(sh, idx))))
-                assert tuple(ns.arg_shapes[nm]) == sh
+                expr = '?{0}_{1} {2}'.format(nm, idx, ' '.join('{}_{}'.format({2: 'r', 3: 's'}[n], i) for n, i in zip(sh, idx)))
+                try:        # (this assignment is itself a valid expression given to the code under test)
+                    setattr(ns, 'decl' + nm, expr)
+                    got = tuple(ns.arg_shapes[nm])
+                    if got != sh:
+                        raise ArgShapeMismatch('ns.arg_shapes[{!r}] = {} after the assignment, the expression determines {}'.format(nm, got, sh))
+                except Exception as ex:
+                    self.setup_failures[fallback] = 'ns.decl{} = {!r} (Namespace(fallback_length={})) raised {}: {}'.format(nm, expr, fallback, type(ex).__name__, str(ex).split('\n')[0][:160])
+                    return None
         return ns
 
     def argval(self, nm, shape):
@@ -283,8 +291,10 @@ class Replayer1:
             return 'v1:' + case['kf']
         return 'v1:{}:{}'.format(kind, detail)
 
-    def replay(self, case):
-        """-> (list of final Outcomes, list of Pending arrays).  One Outcome per (variant, engine)."""
+    def replay(self, case, full=True):
+        """-> (list of final Outcomes, list of Pending arrays).  One Outcome per (variant, engine).
+        full: every way to hand the string to the namespace and the values of the result; otherwise eval_... only, judged on
+        exception class, shape and argument shapes (no evaluation)."""
         s = text(case)
         outs, pend = [], []
         ESE = self.e1.ExpressionSyntaxError
@@ -294,16 +304,20 @@ class Replayer1:
                 outs.append(('v1x:' + vlabel, Outcome('skip')))
                 continue
             ns = self.namespace(fb)
+            if ns is None:      # the namespace could not be set up: reported once (replay_phase)
+                continue
             want_args = {nm: tuple(sh) for nm, sh in args}
             idx = ''.join(axes)
             calls = [('eval', 'ns.eval_{}(expr)'.format(idx), axes, arr, lambda: getattr(ns, 'eval_' + idx)(s))]
             light = vlabel == 'fallback' and not want_args       # same verdict and lengths as on the plain namespace, no argument: no second evaluation
-            if ok == 'ok' and len(axes) >= 2:
+            if not full:
+                light = True
+            if full and ok == 'ok' and len(axes) >= 2:
                 ridx = idx[::-1]
                 calls.append(('eval-rev', 'ns.eval_{}(expr)'.format(ridx), list(reversed(axes)), rev, (lambda ridx: lambda: getattr(ns, 'eval_' + ridx)(s))(ridx)))
             # (`expr @ ns` and an assignment without indices first try to read the string with all indices omitted, where other
             # rules hold: strings that must be refused are only given to eval_...)
-            if ok == 'ok' and len(axes) <= 1:
+            if full and ok == 'ok' and len(axes) <= 1:
                 calls.append(('matmul', 'expr @ ns', axes, arr, lambda: s @ ns))
 
             def assign():
@@ -319,7 +333,7 @@ class Replayer1:
                     ns._arg_shapes.clear()
                     ns._arg_shapes.update(saved)
                     ns._attributes.pop('zz', None)
-            if ok == 'ok':
+            if full and ok == 'ok':
                 calls.append(('setattr', 'ns.zz_{} = expr'.format(idx), axes, arr, assign))
             for eng, label, order, proj, call in calls:
                 engine = 'v1x:{}:{}'.format(vlabel, eng)
@@ -362,7 +376,7 @@ class Replayer1:
                 if (eng == 'eval' and not light) or (eng == 'eval-rev' and not light and self.pick(s)):
                     pend.append(Pending(engine, case, where, order, proj, a, got_args))
                 else:
-                    outs.append((engine, Outcome('ok', checked=1)))
+                    outs.append((engine, Outcome('ok', checked=0 if eng == 'eval' and not full else 1)))
         return outs, pend
 
     # -- evaluation of the produced arrays: batched per signature of argument shapes
@@ -412,14 +426,30 @@ class ArgShapeMismatch(Exception):
     pass
 
 
+def stratify(cases, per_bad, per_ok, rng):
+    'at most per_bad / per_ok cases of every (verdicts, rule, operations, number of unknown lengths) class'
+    groups = collections.defaultdict(list)
+    for c in cases:
+        groups[c['ok'], c['why'], c['okF'], opsig(c), min(c['nun'], 3)].append(c)
+    out = []
+    for key in sorted(groups):
+        g = groups[key]
+        g.sort(key=text)
+        n = per_ok if 'ok' in (key[0], key[2]) else per_bad
+        if len(g) > n:
+            g = rng.sample(g, n)
+        out.extend(g)
+    return out
+
+
 def replay_phase(rep, tables, byfam, sim, rng):
     """S->C: the selected cases on the real expression_v1 namespaces"""
-    from . import c19
     quick = rep.tier == 'quick'
     R = Replayer1(tables)
     R.allrev = not quick
-    per_class = 60 if quick else 100000
-    per_valid = 90 if quick else 6000
+    per_bad = 12 if quick else 100000        # per (family, verdicts, rule, operations, unknown lengths) class: strings that must be refused
+    per_ok = 5 if quick else 400             # ... valid strings replayed in every way, with their values
+    nlight = 0
     worst = {}
     seen = set()
     status = {}
@@ -450,21 +480,27 @@ def replay_phase(rep, tables, byfam, sim, rng):
 
     for name in sorted(byfam):
         cases = list(byfam[name].values())
-        for c in cases:       # stratify on the verdicts of both namespaces
-            c['ok1'], c['why1'] = c['okF'], ''
-        sel = c19.stratified(cases, per_class, 100000 if name in sim else per_valid, rng)
-        for c in sel:
-            s = text(c)
-            if (s, c['ok']) in seen:
-                continue
-            seen.add((s, c['ok']))
-            status[s, c['ok']] = [c, name, 0, 0]
-            outs, pend = R.replay(c)
-            for eng, o in outs:
-                record(c, name, eng, o)
-            pending.extend((p, name) for p in pend)
-            if len(pending) >= 40:
-                flush()
+        sel = stratify(cases, per_bad, 100000 if name in sim else per_ok, rng)
+        chosen = set(id(c) for c in sel)
+        # every other valid string: is it accepted, with the shape and the argument shapes the model deduces (cheap: no evaluation)
+        rest = [c for c in cases if id(c) not in chosen and 'ok' in (c['ok'], c['okF'])]
+        for full, group in (True, sel), (False, sorted(rest, key=text)):
+            for c in group:
+                s = text(c)
+                if (s, c['ok']) in seen:
+                    continue
+                seen.add((s, c['ok']))
+                status[s, c['ok']] = [c, name, 0, 0]
+                nlight += not full
+                outs, pend = R.replay(c, full)
+                for eng, o in outs:
+                    if o.kind != 'ok' or o.checked:
+                        record(c, name, eng, o)
+                    elif not full:
+                        status[s, c['ok']][2] += 1
+                pending.extend((p, name) for p in pend)
+                if len(pending) >= 40:
+                    flush()
     flush()
     nvalid = 0
     for (s, ok), (c, name, judged, skipped) in status.items():
@@ -475,8 +511,12 @@ def replay_phase(rep, tables, byfam, sim, rng):
             if c['no'] >= 3 and name in sim and c['nun'] >= 2:
                 rep.sample(dict(expression=s, verdict=ok, rule=c['why'], axes=c['fr'], arguments=c['args'], array=c['arr'] if len(c['arr']['v']) <= 4 else '...'))
     rep.lap('replay-v1')
+    for fb, what in sorted(R.world.setup_failures.items(), key=repr):
+        rep.violation('v1:namespace-setup:declared-argument', 'the valid assignment that declares the shape of an argument failed: ' + what, dict(fallback_length=fb))
     for key, (rank, what, data, count) in sorted(worst.items()):
         for _ in range(count):
             rep.violation(key, what, data)
     rep.extra['v1_valid_expressions_compared'] = nvalid
+    rep.extra['v1_valid_expressions_judged_without_values'] = nlight
     rep.extra['v1_expressions_with_deduced_lengths'] = sum(1 for (c, name, judged, skipped) in status.values() if judged and c['nun'] > 0)
+    rep.extra['v1_expressions_with_three_or_more_unknown_lengths'] = sum(1 for (c, name, judged, skipped) in status.values() if judged and c['nun'] >= 3)
